@@ -1579,7 +1579,7 @@ func TestVerifC03Corrupt(t *testing.T) {
 
 		// ---- sampled position classes + random multi-damage ------------------------------
 		const perLog = 25
-		ctx.Group("sampled", ctx.N(120, 800), func(cs *vkit.Case) {
+		ctx.Group("sampled", ctx.N(120, 500), func(cs *vkit.Case) {
 			r := cs.R
 			frames := c03GenLog(r, c03LogOpts{minCmds: 6, maxCmds: 30, bigValues: r.Chance(0.25), badNumeric: badNumeric})
 			lg := c03H.writeLog(cs, frames)
@@ -1615,7 +1615,7 @@ func TestVerifC03Corrupt(t *testing.T) {
 
 		// ---- every byte x {flip bit 0, flip bit 7, set 0xA5} ------------------------------
 		// thorough: every byte of logs <= 2 KB; quick: every 8th byte (rotating) of logs <= 450 bytes.
-		ctx.Group("everybyte", ctx.N(12, 32), func(cs *vkit.Case) {
+		ctx.Group("everybyte", ctx.N(12, 16), func(cs *vkit.Case) {
 			r := cs.R
 			maxBytes, stride := 2048, 1
 			maxCmds := 30
@@ -1657,7 +1657,7 @@ func TestVerifC03Corrupt(t *testing.T) {
 		})
 
 		// ---- truncation at every offset of a small log --------------------------------------
-		ctx.Group("everycut", ctx.N(8, 32), func(cs *vkit.Case) {
+		ctx.Group("everycut", ctx.N(8, 16), func(cs *vkit.Case) {
 			r := cs.R
 			maxBytes, stride := 2048, 1
 			if ctx.Quick() {
@@ -1694,7 +1694,7 @@ func TestVerifC03Corrupt(t *testing.T) {
 		// (random, magic byte sprinkled / in runs / nothing else, header-like, RESP text, zeros),
 		// and damage whose extent is log-uniform up to 40 KB: the region recovery has to scan
 		// over is longer than any buffer it reads into, and holds magic bytes at every phase.
-		ctx.Group("longscan", ctx.N(48, 300), func(cs *vkit.Case) {
+		ctx.Group("longscan", ctx.N(48, 160), func(cs *vkit.Case) {
 			r := cs.R
 			o := c03LogOpts{minCmds: 5, maxCmds: 16, badNumeric: badNumeric, longP: 0.15 + 0.35*r.Float64(), longMax: 48 << 10}
 			if r.Chance(0.3) {
